@@ -1101,6 +1101,9 @@ impl<RW: QueueRW<T>, T> Drop for MultiQueue<RW, T> {
                 }
             }
         }
+        // the ring itself; the values it held are gone by now
+        alloc::deallocate(self.data, self.capacity as usize);
+        alloc::deallocate(self.refs, self.capacity as usize);
     }
 }
 
